@@ -17,6 +17,8 @@ Require Import V.Proofs.C02OracleProofs.
 Require Import V.Proofs.C02Words.
 Require Import V.Proofs.C02Trace.
 Require Import V.Proofs.C02OracleFull.
+Require Import V.Proofs.C02Solo.
+Require Import V.Proofs.C02CollapseRun.
 From Coq Require Import ZifyBool.
 Open Scope Z_scope.
 
@@ -42,6 +44,26 @@ Section RunB.
   Proof. unfold adm_b, sys_adm. destruct (th t) as [l | l |]; [| |auto].
     - unfold adm_pub. destruct (p_pc l); intros H; try exact I; try discriminate; lia.
     - destruct (e_ops l) as [|[v | p] r]; intros H; try exact I; discriminate. Qed.
+
+  Lemma adm_b_pub s P l : adm_b s (TPub l) = true -> adm_pub c s P l.
+  Proof. unfold adm_b, adm_pub. destruct (p_pc l); intros H; try exact I; try discriminate; lia. Qed.
+
+  (* one machine alone, every step checked *)
+  Fixpoint solob (fuel : nat) (t : nat) (s : shared) (l : plocal) : option (shared * plocal) :=
+    match fuel with
+    | O => Some (s, l)
+    | S f => match pstep c t s l with
+             | Some (s1, l1, _) => if adm_b s (TPub l) then solob f t s1 l1 else None
+             | None => Some (s, l)
+             end
+    end.
+
+  Lemma solob_ssteps t : forall fuel s l s' l', solob fuel t s l = Some (s', l') -> ssteps c t s l s' l'.
+  Proof. induction fuel as [|f IH]; intros s l s' l' H; cbn [solob] in H.
+    - inversion H; subst. constructor.
+    - destruct (pstep c t s l) as [[[s1 l1] e]|] eqn:E; [|inversion H; subst; constructor].
+      destruct (adm_b s (TPub l)) eqn:Ea; [|discriminate].
+      eapply ssteps_cons; [apply adm_b_pub; exact Ea | exact E | apply IH; exact H]. Qed.
 
   Fixpoint runb (sched : list nat) (r : shared * (nat -> thread) * list event) : option (shared * (nat -> thread) * list event) :=
     match sched with
@@ -114,3 +136,20 @@ Proof.
   - intros t. destruct t as [|[|t]]; [rewrite E0; assumption | rewrite E1; assumption | rewrite Hi by lia; exact I].
   - intros t l Ht. destruct t as [|[|t]]; [split; [lia | reflexivity] | split; [lia | reflexivity] | rewrite Hi in Ht by lia; discriminate].
   - exists l0, l1. auto. Qed.
+
+(* one publisher alone: three messages (one fragmented), run to completion *)
+Definition ex_solo_cfg := mkCfg 2147483646 10 128 11 22 1 64.
+Definition ex_solo_msgs := [payload 1 40; payload 2 120; payload 3 0].
+
+Lemma ex_solo_wf : wf_cfg ex_solo_cfg.
+Proof. constructor; cbn; try (vm_compute; intuition congruence). Qed.
+
+Lemma ex_solo : exists s' l',
+  ssteps ex_solo_cfg 0 (init_shared ex_solo_cfg 4096) (p_start ex_solo_msgs 5 []) s' l' /\ p_pc l' = PDone /\ p_res l' = [Ok 1184; Ok 1376; Ok 1408].
+Proof.
+  assert (C : match solob ex_solo_cfg 200 0 (init_shared ex_solo_cfg 4096) (p_start ex_solo_msgs 5 []) with
+              | Some (s', l') => p_pc l' = PDone /\ p_res l' = [Ok 1184; Ok 1376; Ok 1408]
+              | None => False
+              end) by (vm_compute; split; reflexivity).
+  destruct (solob ex_solo_cfg 200 0 (init_shared ex_solo_cfg 4096) (p_start ex_solo_msgs 5 [])) as [[s' l']|] eqn:E; [|contradiction].
+  exists s', l'. split; [apply (solob_ssteps ex_solo_cfg 0 200); exact E | exact C]. Qed.
